@@ -637,9 +637,11 @@ const (
 	LandNearlyEqual
 	numLands // the kinds below are opt-in (named in WorldSpec.Landscapes), not part of "all"
 	LandSpeciesZero
+	LandSubnormalUnits
+	LandNearMax
 )
 
-var landNames = []string{"const", "zero", "uniform", "heavy", "dominant", "ties", "structural", "distinct", "huge", "oscillate", "tiny", "ties-positive", "nearly-equal", "", "species-zero"}
+var landNames = []string{"const", "zero", "uniform", "heavy", "dominant", "ties", "structural", "distinct", "huge", "oscillate", "tiny", "ties-positive", "nearly-equal", "", "species-zero", "subnormal-units", "near-max"}
 
 // Landscape assigns finite, non-negative fitness deterministically from (seed, generation, index, genome shape).
 type Landscape struct {
@@ -701,6 +703,16 @@ func (l *Landscape) Fitness(gen, idx int, g *genetics.Genome) float64 {
 	case LandNearlyEqual:
 		// distinct values that differ from the twelfth digit on: a comparison with a tolerance takes them for equal
 		return 7.5 * (1 + float64(1+(idx*7+gen*3)%97)*1e-12 + float64(idx)*1e-14)
+	case LandSubnormalUnits:
+		// small whole multiples of the smallest positive float64: finite, positive, and every quotient and mean of them
+		// is rounded to a whole number of units, so ratios are off by tens of percent
+		return float64(1+r.Intn(8)) * math.SmallestNonzeroFloat64
+	case LandNearMax:
+		// finite values at the top of the float64 range: doubling one, or adding two, overflows
+		if r.Intn(3) == 0 {
+			return math.MaxFloat64 * (0.5 + r.Float()*0.5)
+		}
+		return 1 + r.Float()*9
 	case LandTiesPositive:
 		// few distinct positive values: exact ties everywhere, also across the parent cut of a species
 		return float64(1 + r.Intn(3))
